@@ -23,6 +23,8 @@ type Builder struct {
 	table      []Transition            // transition table
 	matchFlags []bool                  // match state flags
 	matchSlots []uint32                // slots to apply at each match state
+	endOnly    []bool                  // match state whose match lies behind \z / $: it holds at the end of input only
+	matchAtEnd bool                    // the match of the current closure lies behind \z / $
 	nfaToDFA   map[nfa.StateID]StateID // maps NFA state to DFA state ID
 
 	// Configuration
@@ -79,6 +81,7 @@ func Build(n *nfa.NFA) (*DFA, error) {
 	b.numStates = 1
 	b.matchFlags = append(b.matchFlags, false)
 	b.matchSlots = append(b.matchSlots, 0)
+	b.endOnly = append(b.endOnly, false)
 	for i := 0; i < b.stride; i++ {
 		b.table = append(b.table, NewTransition(DeadState, false, 0))
 	}
@@ -101,6 +104,7 @@ func Build(n *nfa.NFA) (*DFA, error) {
 		startState:  startDFA,
 		matchStates: b.matchFlags,
 		matchSlots:  b.matchSlots,
+		endOnly:     b.endOnly,
 		stateCount:  b.numStates,
 	}
 
@@ -138,6 +142,7 @@ func (b *Builder) buildState(nfaRoot nfa.StateID) (StateID, error) {
 
 	b.numStates++
 	b.matchFlags = append(b.matchFlags, isMatch)
+	b.endOnly = append(b.endOnly, isMatch && b.matchAtEnd)
 	// Store match slots (slots to apply when reaching this match state)
 	if isMatch {
 		b.matchSlots = append(b.matchSlots, b.matchMask)
@@ -213,6 +218,7 @@ func (b *Builder) epsilonClosureOnePass(root nfa.StateID) ([]closureEntry, bool,
 			// Save the slots accumulated to reach match state
 			// These are the capture END positions
 			b.matchMask = slots
+			b.matchAtEnd = endOnly
 			if !endOnly {
 				matchWins = true
 			}
